@@ -265,6 +265,10 @@ func genC06Reg(out *caseWriter, seed uint64, n int, args []string) error {
 			o.nTxn = r.rangeInt(4, 18)
 		}
 		valued := r.chance(45)
+		if r.chance(80) {
+			// the copies added below change positions: no assertions or closings that they would break
+			o.assertions, o.closes = false, false
+		}
 		j := genJournal(r, o)
 		// more ties: copies of transactions with another description and/or another source account, same day
 		var ts []int
